@@ -1,1 +1,229 @@
-//! placeholder
+//! Small XML 1.0 well-formedness checker (non-validating), enough for documents without DTD:
+//! balanced elements, one root, legal names, attributes, comments, CDATA, PIs, entity and character
+//! references (the five predefined entities only), no raw '<' or '&' in character data, legal characters.
+//! Every 50th document is also given to python's expat (tools/xml_expat.py): both must agree.
+
+#[derive(Debug, Clone, PartialEq)]
+pub enum Event {
+    Start(String),
+    End(String),
+    Text(String),
+}
+
+fn is_name_start(c: char) -> bool {
+    c.is_alphabetic() || c == '_' || c == ':'
+}
+fn is_name_char(c: char) -> bool {
+    is_name_start(c) || c.is_ascii_digit() || c == '-' || c == '.' || c == '\u{b7}' || c.is_numeric()
+}
+fn legal_char(c: char) -> bool {
+    matches!(c, '\t' | '\n' | '\r') || (c >= '\u{20}' && c <= '\u{d7ff}') || (c >= '\u{e000}' && c <= '\u{fffd}') || c >= '\u{10000}'
+}
+
+fn decode_ref(s: &str, pos: usize) -> Result<(char, usize), String> {
+    // s[pos] == '&'
+    let rest = &s[pos + 1..];
+    let end = rest.find(';').ok_or_else(|| format!("unterminated reference at byte {pos}"))?;
+    let name = &rest[..end];
+    let c = match name {
+        "amp" => '&',
+        "lt" => '<',
+        "gt" => '>',
+        "apos" => '\'',
+        "quot" => '"',
+        _ => {
+            if let Some(h) = name.strip_prefix("#x") {
+                let n = u32::from_str_radix(h, 16).map_err(|_| format!("bad character reference &{name};"))?;
+                char::from_u32(n).filter(|c| legal_char(*c)).ok_or_else(|| format!("illegal character reference &{name};"))?
+            } else if let Some(d) = name.strip_prefix('#') {
+                let n: u32 = d.parse().map_err(|_| format!("bad character reference &{name};"))?;
+                char::from_u32(n).filter(|c| legal_char(*c)).ok_or_else(|| format!("illegal character reference &{name};"))?
+            } else {
+                return Err(format!("undefined entity &{name}; at byte {pos}"));
+            }
+        }
+    };
+    Ok((c, pos + 1 + end + 1))
+}
+
+/// Ok(events) if `s` is a well-formed XML document, Err(reason) otherwise
+pub fn parse(s: &str) -> Result<Vec<Event>, String> {
+    let mut ev = vec![];
+    let mut stack: Vec<String> = vec![];
+    let mut roots = 0;
+    let mut text = String::new();
+    let b = s.as_bytes();
+    let mut i = 0;
+    if let Some(c) = s.chars().find(|c| !legal_char(*c)) {
+        return Err(format!("illegal character U+{:04X}", c as u32));
+    }
+    let flush = |text: &mut String, ev: &mut Vec<Event>, depth: usize| -> Result<(), String> {
+        if !text.is_empty() {
+            if depth == 0 && !text.trim().is_empty() {
+                return Err(format!("character data outside the root element: {:?}", text.trim().chars().take(30).collect::<String>()));
+            }
+            if depth > 0 {
+                ev.push(Event::Text(std::mem::take(text)));
+            } else {
+                text.clear();
+            }
+        }
+        Ok(())
+    };
+    while i < b.len() {
+        match b[i] {
+            b'<' => {
+                flush(&mut text, &mut ev, stack.len())?;
+                if s[i..].starts_with("<!--") {
+                    let end = s[i + 4..].find("-->").ok_or("unterminated comment")?;
+                    if s[i + 4..i + 4 + end].contains("--") {
+                        return Err("'--' inside a comment".into());
+                    }
+                    i += 4 + end + 3;
+                } else if s[i..].starts_with("<![CDATA[") {
+                    if stack.is_empty() {
+                        return Err("CDATA outside the root element".into());
+                    }
+                    let end = s[i + 9..].find("]]>").ok_or("unterminated CDATA section")?;
+                    ev.push(Event::Text(s[i + 9..i + 9 + end].to_string()));
+                    i += 9 + end + 3;
+                } else if s[i..].starts_with("<?") {
+                    let end = s[i + 2..].find("?>").ok_or("unterminated processing instruction")?;
+                    i += 2 + end + 2;
+                } else if s[i..].starts_with("<!") {
+                    return Err("DTD declarations are not expected in this output".into());
+                } else if s[i..].starts_with("</") {
+                    let end = s[i..].find('>').ok_or("unterminated end tag")?;
+                    let name = s[i + 2..i + end].trim_end();
+                    match stack.pop() {
+                        Some(open) if open == name => ev.push(Event::End(open)),
+                        Some(open) => return Err(format!("end tag </{name}> does not match <{open}>")),
+                        None => return Err(format!("end tag </{name}> without start tag")),
+                    }
+                    i += end + 1;
+                } else {
+                    let end = s[i..].find('>').ok_or("unterminated start tag")?;
+                    let inner = &s[i + 1..i + end];
+                    let (inner, empty) = match inner.strip_suffix('/') {
+                        Some(x) => (x, true),
+                        None => (inner, false),
+                    };
+                    let name_end = inner.find(|c: char| c.is_whitespace()).unwrap_or(inner.len());
+                    let name = &inner[..name_end];
+                    let mut cs = name.chars();
+                    if !cs.next().map(is_name_start).unwrap_or(false) || !cs.all(is_name_char) {
+                        return Err(format!("illegal element name {:?}", name));
+                    }
+                    // attributes: name="value" pairs
+                    let mut rest = inner[name_end..].trim_start();
+                    let mut seen: Vec<&str> = vec![];
+                    while !rest.is_empty() {
+                        let eq = rest.find('=').ok_or_else(|| format!("malformed attribute in <{name}>"))?;
+                        let an = rest[..eq].trim();
+                        let mut acs = an.chars();
+                        if !acs.next().map(is_name_start).unwrap_or(false) || !acs.all(is_name_char) {
+                            return Err(format!("illegal attribute name {:?}", an));
+                        }
+                        if seen.contains(&an) {
+                            return Err(format!("duplicate attribute {an}"));
+                        }
+                        seen.push(an);
+                        let after = rest[eq + 1..].trim_start();
+                        let q = after.chars().next().filter(|c| *c == '"' || *c == '\'').ok_or("attribute value not quoted")?;
+                        let close = after[1..].find(q).ok_or("unterminated attribute value")?;
+                        let val = &after[1..1 + close];
+                        if val.contains('<') {
+                            return Err("'<' in attribute value".into());
+                        }
+                        let mut k = 0;
+                        while let Some(p) = val[k..].find('&') {
+                            let (_, next) = decode_ref(val, k + p)?;
+                            k = next;
+                        }
+                        rest = after[1 + close + 1..].trim_start();
+                    }
+                    if stack.is_empty() {
+                        roots += 1;
+                        if roots > 1 {
+                            return Err("more than one root element".into());
+                        }
+                    }
+                    ev.push(Event::Start(name.to_string()));
+                    if empty {
+                        ev.push(Event::End(name.to_string()));
+                    } else {
+                        stack.push(name.to_string());
+                    }
+                    i += end + 1;
+                }
+            }
+            b'&' => {
+                let (c, next) = decode_ref(s, i)?;
+                text.push(c);
+                i = next;
+            }
+            _ => {
+                // copy one UTF-8 character
+                let c = s[i..].chars().next().unwrap();
+                if c == '>' && text.ends_with("]]") {
+                    return Err("']]>' in character data".into());
+                }
+                text.push(c);
+                i += c.len_utf8();
+            }
+        }
+    }
+    flush(&mut text, &mut ev, stack.len())?;
+    if let Some(open) = stack.pop() {
+        return Err(format!("element <{open}> is never closed"));
+    }
+    if roots != 1 {
+        return Err("no root element".into());
+    }
+    Ok(ev)
+}
+
+/// texts of all elements named `name`, in document order (concatenated character data of the element itself)
+pub fn texts_of(ev: &[Event], name: &str) -> Vec<String> {
+    let mut out = vec![];
+    let mut depth_stack: Vec<(String, String)> = vec![];
+    for e in ev {
+        match e {
+            Event::Start(n) => depth_stack.push((n.clone(), String::new())),
+            Event::Text(t) => {
+                if let Some(top) = depth_stack.last_mut() {
+                    top.1.push_str(t);
+                }
+            }
+            Event::End(_) => {
+                if let Some((n, t)) = depth_stack.pop() {
+                    if n == name {
+                        out.push(t);
+                    }
+                }
+            }
+        }
+    }
+    out
+}
+
+pub fn count(ev: &[Event], name: &str) -> usize {
+    ev.iter().filter(|e| matches!(e, Event::Start(n) if n == name)).count()
+}
+
+/// second opinion: python3's expat. Some(true/false) = verdict, None = python not available
+pub fn expat_says_well_formed(verif: &std::path::Path, doc: &str) -> Option<bool> {
+    use std::io::Write;
+    let script = verif.join("tools").join("xml_expat.py");
+    let mut child = std::process::Command::new("python3").arg(script).stdin(std::process::Stdio::piped()).stdout(std::process::Stdio::piped()).stderr(std::process::Stdio::null()).spawn().ok()?;
+    child.stdin.take()?.write_all(doc.as_bytes()).ok()?;
+    let out = child.wait_with_output().ok()?;
+    let s = String::from_utf8_lossy(&out.stdout);
+    if s.starts_with("OK") {
+        Some(true)
+    } else if s.starts_with("ERR") {
+        Some(false)
+    } else {
+        None
+    }
+}
